@@ -5,6 +5,7 @@ StepBudget (sys.monitoring function-entry/jump counter: logical evidence of
 termination) and a global-state snapshot compared before/after."""
 import io
 import os
+import signal
 import tempfile
 
 from ..ctx import raising_site
@@ -24,10 +25,11 @@ RULE = (
     "ECC, matching, wrong private key, wrong AES key, wrong security code, all}, Bf3File.bf2_import (both modes, stream/path), ConfigId.create_from_str, pfid2_filter_to_str. Texts: "
     "ALL single-character replacements/deletions (over a 7-character alphabet) and ALL prefixes of valid files per format, multi-mutations, line swaps/duplications, token "
     "insertions, grammar-generated near-valid files with MACs recomputed (deep paths), random text/hex. Oracle: returns, or raises FormatError/ValueError subclasses; "
-    "step count within a budget linear in the input size; global state unchanged. distinct = digest of (entry, config, text); non-trivial = text differs from the valid file"
+    "step count within a budget linear in the input size and user-CPU time of the single call below 20 s + 2 ms/char (for loops inside C code such as regular expressions); global state unchanged. distinct = digest of (entry, config, text); non-trivial = text differs from the valid file"
 )
 ASSUMPTIONS = [
     "'never hangs' is decided as: function entries + jumps counted by sys.monitoring stay below 3,000,000 + 30,000 x len(text) (more than 50x the largest count seen on valid inputs of that size)",
+    "loops inside C code (regular-expression backtracking) are invisible to that counter: each call additionally has a user-CPU-time bound of 20 s + 2 ms per character (ITIMER_VIRTUAL, i.e. time the process actually executes - independent of machine load); typical calls take micro- to milliseconds",
     "UnicodeDecodeError / binascii.Error are ValueError subclasses and allowed",
     "the wall-clock watchdog around a shard only ever yields INCONCLUSIVE",
 ]
@@ -35,6 +37,7 @@ TIMEOUT = {"quick": 1200, "thorough": 8 * 3600}
 NSH = 16
 ALPHABET = ["0", "F", ":", "\n", " ", "x", "é"]
 BUDGET_A, BUDGET_B = 3_000_000, 30_000
+CPU_BUDGET_S, CPU_BUDGET_PER_CHAR = 20.0, 0.002
 
 
 def plan(tier, seed):
@@ -61,11 +64,21 @@ def mandatory_monitors(tier):
     return ["step_budget_run", "exception_type_monitor"]
 
 
+class CpuBudgetExceeded(BaseException):
+    """raised by the SIGVTALRM handler: one parser call used more user-CPU time than CPU_BUDGET_S"""
+
+
+def _on_vtalrm(signum, frame):
+    raise CpuBudgetExceeded()
+
+
 class Monitor:
     def __init__(self, ns, ctx):
         self.ns = ns
         self.ctx = ctx
         self.budget = StepBudget()
+        self.cpu_hits = {}
+        signal.signal(signal.SIGVTALRM, _on_vtalrm)
         self.allowed = (ns.error.FormatError, ValueError)
         self.snap = global_state(ns)
         self.ref0 = self.reference_digest()
@@ -75,9 +88,23 @@ class Monitor:
         ctx.ev()
         ctx.bin("entry:" + entry)
         n = len(text)
+        if self.cpu_hits.get(entry, 0) >= 3:
+            ctx.note("entry_not_called_again_after_3_cpu_budget_violations:" + entry)
+            return
         try:
-            self.budget.run(fn, BUDGET_A + BUDGET_B * n, n)
+            # work done inside C code (regular expressions, bytes methods) is invisible to the step counter: a second,
+            # load-independent bound on the user-CPU time of this single call (ITIMER_VIRTUAL counts only while the
+            # process runs); the regex engine and the interpreter both poll for the signal
+            signal.setitimer(signal.ITIMER_VIRTUAL, CPU_BUDGET_S + CPU_BUDGET_PER_CHAR * n)
+            try:
+                self.budget.run(fn, BUDGET_A + BUDGET_B * n, n)
+            finally:
+                signal.setitimer(signal.ITIMER_VIRTUAL, 0)
             ctx.bin("returned_normally")
+        except CpuBudgetExceeded:
+            signal.setitimer(signal.ITIMER_VIRTUAL, 0)
+            self.cpu_hits[entry] = self.cpu_hits.get(entry, 0) + 1
+            ctx.violation("cpu_time_budget_exceeded:" + entry, {"len": n, "budget_s": CPU_BUDGET_S + CPU_BUDGET_PER_CHAR * n}, rp)
         except StepBudgetExceeded as e:
             ctx.violation("step_budget_exceeded:" + entry, {"len": n, "steps": self.budget.steps}, rp)
         except self.allowed as e:
@@ -424,6 +451,14 @@ def deep_cases(ns, rng, name):
         return [("pfid2", c) for c in cases], extra
     if name == "configid_direct":
         base = ["12345-0001-0002-03 name", "name (version 07)", "", "12345-0001-0002-03", "x", "(version 07)", " (version 07)", "12345-0001-0002-0", "１２３４５-0001-0002-03", "12345-0001-0002-03\n", "a\n (version 07)", "\x00", "9" * 5000]
+        # long unbroken / repetitive names followed by something that stops the name short of the end of the text: inputs
+        # on which an ambiguous pattern backtracks super-linearly
+        for run in (24, 32, 48, 64, 200):
+            for tail in (" ", "\t", " \r\n", "\n", " (version 7)", " (version 07) ", ")"):
+                for word in ("a" * run, "ab " * (run // 3), "a " * (run // 2), "-" * run, "0" * run, "( " * (run // 2)):
+                    base.append("12345-0001-0002-03 " + word + tail)
+                    base.append(word + " (version 07)" + tail)
+                    base.append(word + tail)
         for _ in range(60):
             s = list(rng.choice(base[:2]))
             for _k in range(rng.randrange(1, 4)):
